@@ -147,7 +147,7 @@ def bind_tunnel(chk, results):
     return d1 + d2 + d3
 
 
-BIND_CAP = 1500
+BIND_CAP = 600
 
 
 def _bind_half(chk, results, key, module, tag, groupfn, envfn, hs_up, hs_dn, out_side, tunw_side, raw=False):
@@ -164,8 +164,8 @@ def _bind_half(chk, results, key, module, tag, groupfn, envfn, hs_up, hs_dn, out
         if not t:
             skipped += 1
             continue
-        if nbound >= BIND_CAP and i % 7:
-            # the binding is drift-only: beyond BIND_CAP executions per check every 7th one is still bound
+        if nbound >= BIND_CAP and i % 15:
+            # the binding is drift-only: beyond BIND_CAP executions per check every 15th one is still bound
             skipped += 1
             continue
         nbound += 1
